@@ -11,7 +11,7 @@ rsync -a --exclude '.git' --exclude '*.o' --exclude '*.lo' --exclude '.libs' --e
 set +e
 IVY_REPO="$d/repo" VERIF_BUILD="$d/build" VERIF_EVIDENCE_DIR="$d/ev" VERIF_REPLAY_DIR="$d/replay" /verif/check "$prop" --tier "$tier" > "$d/out.txt" 2>&1
 rc=$?
-grep -E '^(VIOLATION|KNOWN-FINDING|INCONCLUSIVE|  key=|C[0-9]+ )' "$d/out.txt" | cut -c1-300 | head -${MUT_LINES:-8}
+grep -E "^(VIOLATION|KNOWN-FINDING|INCONCLUSIVE|  key=|C[0-9]+ )" "$d/out.txt" | cut -c1-300 | (head -${MUT_LINES:-8}; grep -E "^C[0-9]+ " | tail -1)
 echo "exit=$rc"
 rm -rf "$d"
 exit 0
